@@ -122,10 +122,11 @@ def inject(prog, kind, rnd: random.Random):
     if kind == "label_in_with":
         return p if insert(_bodies(p, lambda l, c: True), ("raw", "with (actor 3) { @lbl_in_with; }")) else None
     if kind == "not_on_plain_bit":
-        t = rnd.choice(["if (not $A[3]) { op_771(); }", "if ($B == 1 || not $A[3]) { }", "if ($B == 1) { } elseif (not VAR_X[0]) { op_771(); }"])
+        t = rnd.choice(["if (not $A[3]) { op_771(); }", "if ($B == 1 || not $A[3]) { }", "if ($B == 1) { } elseif (not VAR_X[0]) { op_771(); }",
+                        "if (not 12[3]) { op_771(); }", "if ($B == 1) { } elseif (not 0x1f[0]) { op_771(); }", "if (not 7[1] || $B == 2) { }"])
         return p if insert(_bodies(p, lambda l, c: True), ("raw", t)) else None
     if kind == "not_on_plain_bit_while":
-        t = rnd.choice(["while (not $A[3]) { op_771(); }", "for (op_770(); not $A[3]; op_772();) { }"])
+        t = rnd.choice(["while (not $A[3]) { op_771(); }", "for (op_770(); not $A[3]; op_772();) { }", "while (not 12[3]) { op_771(); }"])
         return p if insert(_bodies(p, lambda l, c: True), ("raw", t)) else None
     if kind == "unknown_macro":
         return p if insert(_bodies(p, lambda l, c: True), ("macro", "no_such_macro", [("int", 1)])) else None
@@ -145,7 +146,16 @@ def inject(prog, kind, rnd: random.Random):
         return p
     if kind == "too_few_macro_args":
         p["macros"].append(("two_args", ["$x", "$y"], [("op", "op_771", [("const", "$x"), ("const", "$y")], None)]))
-        return p if insert(_bodies(p, lambda l, c: True), ("macro", "two_args", [("int", 1)])) else None
+        bodies = _bodies(p, lambda l, c: True)
+        if not bodies:
+            return None
+        b = rnd.choice(bodies)
+        at = rnd.randint(0, len(b))
+        b.insert(at, ("macro", "two_args", [("int", 1)]))
+        if rnd.random() < 0.5:
+            # a complete call of the same macro earlier in the file must not make up for the missing argument
+            b.insert(at, ("macro", "two_args", [("int", 5), ("int", 6)]))
+        return p
     if kind == "missing_import":
         p["imports"].append(rnd.choice(["./does_not_exist.exps", "../nope/missing.exps", "/no/such/dir/x.exps", "not_in_lookup.exps"]))
         return p
